@@ -77,7 +77,7 @@ def case_minmax(draw):
         x = draw(st.one_of(gen.logfloat(-6, 6, signed=True), st.just(0.0),
                            gen.logfloat(-2, 4, signed=True).map(lambda s: s * eps),
                            st.sampled_from([1.0, -1.0]).map(lambda s: s * eps)))
-    free = draw(st.lists(st.floats(-3.0, 3.0), min_size=4, max_size=4))
+    free = draw(st.lists(gen.floats(-3.0, 3.0), min_size=4, max_size=4))
     return {'fn': fn, 'eps': eps, 'x': x, 'side': side, 'free': free}
 
 
@@ -175,8 +175,8 @@ def case_friction(draw):
     mu = draw(gen.logfloat(-3, 2))
     sreg = draw(gen.logfloat(-10, 2))
     theta = draw(gen.angle())
-    free = draw(st.lists(st.floats(-0.99, 3.0), min_size=4, max_size=4))
-    other = draw(st.lists(st.floats(-3, 3), min_size=2, max_size=2))
+    free = draw(st.lists(gen.floats(-0.99, 3.0), min_size=4, max_size=4))
+    other = draw(st.lists(gen.floats(-3, 3), min_size=2, max_size=2))
     return {'mu': mu, 'sReg': sreg, 'theta': theta, 'free': free, 'other': other}
 
 
@@ -244,7 +244,7 @@ def case_ramp(draw):
     else:
         w = min(draw(gen.logfloat(-8, 0)), 0.49)
     which = draw(st.sampled_from([0, 1]))
-    free = draw(st.lists(st.floats(-3.0, 3.0), min_size=4, max_size=4))
+    free = draw(st.lists(gen.floats(-3.0, 3.0), min_size=4, max_size=4))
     return {'fn': fn, 'w': w, 'which': which, 'free': free}
 
 
